@@ -386,12 +386,13 @@ class DiskReader(io.RawIOBase):
         return self.pos
 
     def seek(self, offset, whence=0):
-        if whence == 0:
-            self.pos = offset
-        elif whence == 1:
-            self.pos += offset
-        else:
-            self.pos = len(self.disk) + offset
+        new = offset if whence == 0 else (self.pos + offset if whence == 1 else len(self.disk) + offset)
+        # what io.BytesIO (and, with OSError, a real file) does with positions no file can have
+        if new < 0:
+            raise ValueError('negative seek value %d' % new)
+        if new > 0x7fffffffffffffff:
+            raise OverflowError('Python int too large to convert to C ssize_t')
+        self.pos = new
         return self.pos
 
     def read(self, size=-1):
